@@ -43,6 +43,10 @@ checks = {
    'Model-based monitor of the five JSON property handlers: generated delivery sequences (arrays of generated valid / field-wise invalid rules written by a hand-written encoder of the documented wire format incl. hot-param specific items of all four kinds, arrays with null elements, identical redelivery, truncated JSON at a random byte, wrongly typed elements, garbage, empty payload, JSON null, bad-then-good); after each delivery Handle\'s return (nil iff decodable), absence of panics and the module\'s rules in force (every field, canonical form = wire round trip) are compared with the valid rules described by the last decodable payload. Second engine: the refreshable file datasource on a scratch file under write / truncate-then-write / in-place corruption / rename-away / remove, convergence polled and only counted when a control fsnotify watcher owned by the monitor saw the event.',
    'Trusts the hand-written wire encoder and the monitor\'s transcription of rule validity; truncations are sampled, not every prefix; the file engine uses real inotify and a bounded wall-clock poll (inconclusive, not violated, when the control watcher saw nothing).',
    'runtime model-based monitor over payload sequences + fault-sequence monitor on a real watched file with a control observer', 'DESIGN.md §3 C18'),
+ 'C15': ('exploration',
+   'Race-detector stress monitor: 12 traffic goroutines over generation-coded flow / isolation / hot-param / system resources, un-churned always-block / always-pass resources, breaker, outlier and plain resources; one rule updater per module alternating whole-set and per-resource loads and clears; 4 reader goroutines calling every getter, node statistics, the node list and per-second items; a ticking virtual clock. Oracles: (1) every WARNING: DATA RACE block in the GORACE logs with a sentinel-golang frame is a violation signed by the innermost repo functions of the two accesses; (2) death of the process (panic, fatal error, checkptr) is a violation; (3) each decision on a generation-coded resource must be a block by the block-all rule of a single generation g with (last load completed before the call) <= g <= (last load begun before the return) - a pass or a mismatched (generation, position) id is a torn rule switch; (4) decisions on the un-churned resources are constant; (5) no progress for 60 s with >=2 goroutines parked on library mutexes is a deadlock.',
+   'Samples the schedules the Go runtime produces (16 cores, Gosched / microsecond sleeps as perturbation); the race detector only sees accesses that actually execute; generation rules are made semantically different between generations so that controller re-use (equal-but-for-ID rules) cannot blur the generation id.',
+   'Go race detector + online trace monitor (generation-coded rule lists) under parallel stress', 'DESIGN.md §3 C15'),
  'C16': ('exploration',
    'Trace monitor on generated chains of recording slots (order values with forced ties, 0-6 or 13-42 slots per kind, behaviours pass/nil/wait/block-fresh/block-by-mutating-context-result/panic, exit handlers error/panic): the complete call log of each Entry/Exit/re-Exit is compared with the sequence implied by the chain description (ascending order, stable ties, first block wins, statistic callbacks exactly once, fail-open), and every returned *BlockError is re-read after 1/10/100/1000 further entries that recycle pooled objects.',
    'Trusts the chain description as oracle; sequential, GOMAXPROCS=1 so that sync.Pool is a LIFO.',
